@@ -251,3 +251,18 @@ def enum_nested(atoms=((0,), (1, 6), (4,), (6,))):
                             if pos != 0:
                                 segs[0] = [(1, 6)]
                             yield (ok, segs[0], segs[1], segs[2])
+
+
+def enum_outside(atoms=((1, 6), (8,), (6,), (4,), (3,)), maxlen=4):
+    """sequences of actions executed while NO protected block is active: at top level, and inside the handler
+    / finaliser of an outermost block (histories of the sticky code and of the parked error record)"""
+    import itertools
+    for n in range(1, maxlen + 1):
+        for seq in itertools.product(atoms, repeat=n):
+            yield list(seq), None
+    for n in range(1, maxlen):
+        for seq in itertools.product(atoms, repeat=n):
+            for kind in (1, 3):
+                yield [(2, (kind, [(1, 6)], list(seq), []))], "handler"
+            yield [(2, (3, [(1, 6)], [], list(seq)))], "finaliser"
+            yield [(1, 6), (2, (2, [], [], list(seq)))], "finaliser-after-outside-throw"
